@@ -4,8 +4,7 @@ import MirVerif.Model.TextIOParse
 context through the API (`MIR_new_module/_func/_proto/_data/…`, `MIR_new_insn_arr`,
 `create_label_desc`, `add_item`, `create_func_reg`, `MIR_finish_func`)
 
-Scope.  Modelled exactly: every `scan_error`; name resolution (label / register / item) including
-the *stale* `insn_code` variable; label numbering (`curr_label_num`); `add_item` with its dropping of
+Scope.  Modelled exactly: every `scan_error`; name resolution (label / register / item) ; label numbering (`curr_label_num`); `add_item` with its dropping of
 repeated `export/import/forward`; register declaration (reserved names, repetition, globals sharing a
 hard register); the `ret` that `MIR_finish_func` appends.  Not modelled (these only *reject*, and they
 are the same functions an API user's calls go through): operand-mode/type validation of
@@ -67,8 +66,8 @@ structure St where
   labels : List (Str × Nat × Bool) := []
   /-- `curr_label_num` -/
   nlab : Nat := 0
-  /-- the C local `insn_code`: set by instruction statements only, so other statements see the code
-  of the last instruction statement (initially `MIR_INSN_BOUND`) -/
+  /-- code of the last instruction statement.  Before fix fae404b2 the scanner classified the names of
+  every later statement by it; now `headCode` is used and nothing reads this field across statements -/
   lastInsn : Nat := insnTable.length
   deriving Repr, Inhabited
 
@@ -119,7 +118,13 @@ def newItem (st : St) (name : Option Str) (kind : IKind) (it : Item) : Except Er
         | .ok (tab, app) =>
           .ok { st with tab := tab, cur := some (if app then { m with items := m.items ++ [it] } else m) }
 
-/-- is the next bare name of an instruction a label? (mir.c:6432-6438, with the stale `insn_code`) -/
+/-- the C local `insn_code` while the operands of a statement are read: it is reset to
+`MIR_INSN_BOUND` when the head word is classified and set by instruction heads only -/
+def headCode : Head → Nat
+  | .insn c => c
+  | _ => insnTable.length
+
+/-- is the next bare name of an instruction a label? (mir.c:6432-6438) -/
 def labelPos (code idx : Nat) : Bool :=
   ((isBranchCode code || code == opPRBEQ || code == opPRBNE) && idx == 0)
   || (code == opLADDR && idx == 1) || (code == opSWITCH && idx > 0)
@@ -132,7 +137,7 @@ def elabName (st : St) (h : Head) (idx : Nat) (n : Str) : Except Err (St × Opti
   | .forward => (newItem st (some n) .forward (.forward n)).map fun s => (s, none)
   | .lref => (createLabel st n false).map fun r => (r.1, some (.label r.2))
   | _ =>
-    if h ≠ .module ∧ h ≠ .endmodule ∧ h ≠ .endfunc ∧ labelPos st.lastInsn idx then
+    if h ≠ .module ∧ h ≠ .endmodule ∧ h ≠ .endfunc ∧ labelPos (headCode h) idx then
       (createLabel st n false).map fun r => (r.1, some (.label r.2))
     else
       let isReg : Bool := h ≠ .expr && h ≠ .ref &&
@@ -261,7 +266,8 @@ def dataEl (t : Ty) (o : Op) : Except Err Nat :=
   | .d, .dbl b => .ok b.toNat
   | .ld, .ldbl b => .ok b.toNat
   | .f, _ | .d, _ | .ld, _ => .error (.syntax "data operand is not of data type")
-  | _, .int _ => .error (.syntax "wrong data clause")          -- `p` and the block types
+  | .p, .int v => .ok v.toNat
+  | _, .int _ => .error (.syntax "wrong data clause")          -- the block types
   | _, _ => .error (.syntax "data operand is not of data type")
 
 def dataEls (t : Ty) : List Op → Except Err (List Nat)
@@ -332,6 +338,23 @@ def elabStmt (st : St) (s : Stmt) : Except Err St :=
       match declRegs f s.ops with
       | .error e => .error e
       | .ok f' => .ok { st with func := some f' }
+  | .endfunc =>
+    -- labels in front of `endfunc` are defined and appended like those in front of an instruction
+    match defineLabels st s.labels with
+    | .error e => .error e
+    | .ok st =>
+      match elabOps st .endfunc s.ops [] with
+      | .error e => .error e
+      | .ok (st, ops) =>
+        match st.func with
+        | none => .error (.syntax "standalone endfunc")
+        | some f =>
+          if ops ≠ [] then .error (.syntax "endfunc should have no params")
+          else
+            match st.cur with
+            | none => .error .internal
+            | some m =>
+              .ok { st with func := none, cur := some { m with items := m.items ++ [.func (finishFunc f)] } }
   | h =>
     match elabOps st h s.ops [] with
     | .error e => .error e
@@ -349,16 +372,6 @@ def elabStmt (st : St) (s : Stmt) : Except Err St :=
            if ops ≠ [] then .error (.syntax "endmodule should have no params")
            else if st.func.isSome then .error (.unmodelled "endmodule inside an open function")
            else .ok { st with done := st.done ++ [m], cur := none, tab := [] })
-      | .endfunc =>
-        (match st.func with
-         | none => .error (.syntax "standalone endfunc")
-         | some f =>
-           if ops ≠ [] then .error (.syntax "endfunc should have no params")
-           else
-             match st.cur with
-             | none => .error .internal
-             | some m =>
-               .ok { st with func := none, cur := some { m with items := m.items ++ [.func (finishFunc f)] } })
       | .export | .import | .forward => .ok st      -- items were created operand by operand
       | .bss =>
         (match ops with
